@@ -18,6 +18,8 @@ for path in sys.argv[1:]:
         m = re.match(r'seeded:(\S+) MARGIN property=(C\d\d) tier=(\w+) violating_runs=(\d+) unlisted=(\d+) of (\d+)', line)
         if m:
             sid, prop, tier, k, u, n = m.groups()
+            if prop == 'C28':
+                continue        # (C28 has its own runner: --margin does not apply to it)
             d = rows.setdefault(sid, {}).setdefault(prop, {})
             d['margin'] = '%s of %s runs violate (quick plan, VERIF_SEED=1)' % (u, n)
             d['margin_k'] = int(u)
@@ -29,8 +31,9 @@ for sid, byprop in sorted(rows.items()):
     det = meta.setdefault('detection', {})
     for prop, d in byprop.items():
         det.setdefault(prop, {}).update({k: v for k, v in d.items() if k != 'margin_k'})
-        if d.get('margin_k', 0) > 0 and 'quick' not in det[prop]:
-            det[prop]['quick'] = 'DETECTED'
+        if 'margin_k' in d:
+            # the margin run executes exactly the quick plan: any violating run is what the check reports
+            det[prop]['quick'] = 'DETECTED' if d['margin_k'] > 0 else 'MISSED'
     detectors = sorted(p for p, d in det.items() if d.get('quick') == 'DETECTED')
     meta['properties'] = sorted(set(meta.get('properties', [])) | set(detectors))
     meta['what_i_ran'] = ('git -C /repo apply seeded/%s/patch.diff; ./check <prop> --tier quick (and --margin: the same plan, counting '
